@@ -132,7 +132,7 @@ def _newdir() -> str:
 # ---------------------------------------------------------------------------------------------------------
 # (A) project generation, run, judge
 
-def _dep_call(i: int, st: list, cons: T.Optional[str], static: bool = False) -> str:
+def _dep_call(i: int, st: list, cons: T.Optional[str], static: bool = False, name: str = 'foo') -> str:
     _, req, af, fb = st
     kw = []
     if static:
@@ -151,21 +151,24 @@ def _dep_call(i: int, st: list, cons: T.Optional[str], static: bool = False) -> 
         kw.append("fallback: ['sp', 'foo_dep']")
     elif fb == 'novar':
         kw.append("fallback: 'sp'")
-    args = ', '.join(["'foo'"] + kw)
+    args = ', '.join([f"'{name}'"] + kw)
     return (f"d{i} = dependency({args})\n"
             f"message('R{i}:found=@0@;type=@1@;ver=@2@'.format(d{i}.found(), d{i}.type_name(), d{i}.version()))\n")
 
 
 def tree_a(cfg: dict, steps: T.Sequence[list]) -> T.Dict[str, str]:
     files: T.Dict[str, str] = {}
+    # the name the project asks for (family "name-case": a spelling with capitals; ini keys of a wrap's [provide] section
+    # are case-insensitive, pkg-config names and meson.override_dependency() names are used as written)
+    name = cfg.get('depname', 'foo')
     body = "project('main', version: '0.1')\n"
     for i, st in enumerate(steps):
         if st[0] == 'sub':
             body += f"s{i} = subproject('sp')\nmessage('R{i}:sub')\n"
         elif st[0] == 'ovr':
-            body += f"meson.override_dependency('foo', declare_dependency(version: '{st[1]}'))\nmessage('R{i}:ovr')\n"
+            body += f"meson.override_dependency('{name}', declare_dependency(version: '{st[1]}'))\nmessage('R{i}:ovr')\n"
         else:
-            body += _dep_call(i, st, cfg['cons'], bool(cfg.get('static')))
+            body += _dep_call(i, st, cfg['cons'], bool(cfg.get('static')), name)
     files['src/meson.build'] = body
     files['src/meson.options'] = ("option('f_auto', type: 'feature', value: 'auto')\n"
                                   "option('f_enabled', type: 'feature', value: 'enabled')\n"
@@ -174,14 +177,14 @@ def tree_a(cfg: dict, steps: T.Sequence[list]) -> T.Dict[str, str]:
     if need_sp:
         sp = f"project('sp', version: '{cfg['spver']}')\nmessage('SP-CONFIGURED')\nfoo_dep = declare_dependency(version: '{cfg['spver']}')\n"
         if cfg['sp_ovr']:
-            sp += "meson.override_dependency('foo', foo_dep)\n"
+            sp += f"meson.override_dependency('{name}', foo_dep)\n"
         files['src/subprojects/sp/meson.build'] = sp
     if cfg['wrap'] == 'var':
-        files['src/subprojects/sp.wrap'] = '[wrap-file]\ndirectory = sp\n\n[provide]\nfoo = foo_dep\n'
+        files['src/subprojects/sp.wrap'] = f'[wrap-file]\ndirectory = sp\n\n[provide]\n{name} = foo_dep\n'
     elif cfg['wrap'] == 'names':
-        files['src/subprojects/sp.wrap'] = '[wrap-file]\ndirectory = sp\n\n[provide]\ndependency_names = foo\n'
+        files['src/subprojects/sp.wrap'] = f'[wrap-file]\ndirectory = sp\n\n[provide]\ndependency_names = {name}\n'
     if cfg['sys'] is not None:
-        files['pc/foo.pc'] = f"Name: foo\nDescription: generated\nVersion: {cfg['sys']}\n"
+        files[f'pc/{name}.pc'] = f"Name: {name}\nDescription: generated\nVersion: {cfg['sys']}\n"
     else:
         files['pc/.keep'] = ''
     return files
@@ -211,7 +214,10 @@ def run_a(case: dict, sub: bool = False) -> ObsA:
         log = os.path.join(d, 'pc.log')
         env = {'PKG_CONFIG': p['wrapper'], 'PKG_CONFIG_LIBDIR': os.path.join(d, 'pc'), 'C10_PCLOG': log,
                'CMAKE': '/nonexistent/cmake'}
+        depname = cfg.get('depname', 'foo')
+
         def setup_args(wm: str, fff: T.List[str], reconf: bool) -> T.List[str]:
+            fff = [depname if x == 'foo' else x for x in fff]
             if reconf:
                 a = ['setup', '--reconfigure', f'-Dwrap_mode={wm}', '-Dforce_fallback_for=' + ','.join(fff)]
             else:
@@ -271,7 +277,7 @@ def run_a(case: dict, sub: bool = False) -> ObsA:
         o.spconf = 'SP-CONFIGURED' in r.sub_messages('sp')
         if os.path.exists(log):
             with open(log) as fh:
-                o.consulted = any(line.split()[-1:] == ['foo'] for line in fh)
+                o.consulted = any(line.split()[-1:] == [depname] for line in fh)
         return o
     finally:
         shutil.rmtree(d, ignore_errors=True)
@@ -1236,7 +1242,12 @@ def run(ctx: Ctx) -> None:
             if len(c['steps']) == 1 and (c['cfg']['wrap'] != 'none' or c['cfg']['sp_ovr'] or c['steps'][0][3] != 'none')]
     stat = rnd.sample(stat, min(len(stat), ctx.n(260, 4000)))
     ctx.ev.extra['A_static_cells_run'] = len(stat)
-    seqs = seqs + hist + stat
+    # name-case family: the same selection of cells, the dependency spelled with capitals everywhere
+    ncase = [{'cfg': dict(c['cfg'], depname='FooBar'), 'steps': c['steps']} for c in table
+             if len(c['steps']) == 1 and (c['cfg']['wrap'] != 'none' or c['cfg']['sp_ovr'] or c['steps'][0][3] != 'none')]
+    ncase = rnd.sample(ncase, min(len(ncase), ctx.n(200, 3000)))
+    ctx.ev.extra['A_namecase_cells_run'] = len(ncase)
+    seqs = seqs + hist + stat + ncase
     ctx.ev.extra['A_table_size'] = len(table)
     ctx.ev.extra['A_cells_run'] = len(cells)
     ctx.ev.extra['A_sequences_run'] = len(seqs)
